@@ -111,6 +111,21 @@ func vflags2(kind int) uint64 {
 	return uint64(rt.IteInt(kind == vUpd, 1, 0))<<62 | uint64(rt.IteInt(kind == vDel, 1, 0))<<63
 }
 
+// vcands: every order type of a key relative to the two ramps 0x10,0x12..0x28 and 0x40,0x42..0x56
+// (below, on the first/middle/last ramp key, in a gap, between the ramps, above)
+var vcands = []byte{0x0f, 0x10, 0x11, 0x1c, 0x1d, 0x28, 0x29, 0x40, 0x41, 0x56, 0x57}
+
+// vplaced is a free entry whose key is one of the candidate positions (concrete per path;
+// merging only ever compares keys, so the positions stand for all keys of that order type)
+// with a symbolic 40-bit offset and a symbolic change kind
+func vplaced(name string) ventry {
+	k := string([]byte{vcands[rt.Pick(name+"_pos", len(vcands))]})
+	base := rt.U64(name + "_off")
+	rt.Assume(base != 0 && base <= Mask)
+	kind := vAdd + rt.Choice(name+"_kind", 3)
+	return ventry{k, base | vflags2(kind), kind, true}
+}
+
 // vramp is a chunk of n concrete increasing keys start, start+2, ... all adds
 func vramp(start byte, n int, off uint64) []ventry {
 	es := make([]ventry, n)
@@ -295,7 +310,7 @@ func vmergeCheck(bufs [][][]ventry) {
 
 // C11 Merge of 2..3 small buffers (1..2 entries each, arbitrary 1-byte keys, offsets, kinds).
 //
-//symgo:harness prop=C11 tier=quick shards=16 timeout=400 ttimeout=1700 bounds=2..3_buffers;1..2_entries_each_(third_buffer_1;_thorough_1..3_each);1-byte_keys;40-bit_offsets;all_valid_change_kinds
+//symgo:harness prop=C11 tier=quick shards=16 timeout=400 ttimeout=1700 bounds=2_buffers_of_1..2_entries_or_3_buffers_of_1_entry_(thorough:_2..3_buffers_of_1..3);1-byte_keys;40-bit_offsets;all_valid_change_kinds
 func VerifC11MergeSmall() {
 	nb := 2 + rt.Pick("nbufs", 2)
 	maxn := 2
@@ -305,7 +320,7 @@ func VerifC11MergeSmall() {
 	bufs := make([][][]ventry, nb)
 	for i := range bufs {
 		n := 1
-		if i < 2 || rt.Thorough() {
+		if nb == 2 || rt.Thorough() {
 			n = 1 + rt.Pick("n"+string(rune('0'+i)), maxn)
 		}
 		es := make([]ventry, n)
@@ -319,27 +334,35 @@ func VerifC11MergeSmall() {
 
 // C11 Merge with real-size chunks: a 13-slot chunk (passed through whole when nothing overlaps it),
 // 12-slot chunks (appended to the output buffer, which is flushed when it exceeds the goal) and
-// free entries that may fall before, inside, on or after them.
+// free entries placed at every order type relative to the chunks (before, on a chunk key, in a
+// gap, between chunks, after), with symbolic offsets and change kinds.
 //
-//symgo:harness prop=C11 tier=quick shards=16 timeout=400 ttimeout=1700 bounds=buffer1_of_chunks_{13}|{12,12}|{13,12}_concrete_ramp_keys_plus_one_free_entry;buffer2_of_1..2_free_entries;(thorough:_optional_buffer3_of_1_free_entry)
+//symgo:harness prop=C11 tier=quick shards=16 timeout=400 ttimeout=1700 bounds=buffer1_of_chunks_{13}|{12,12}|{13,12}_ramp_keys_plus_one_free_entry;buffer2_of_1_free_entry(thorough_1..2_and_optional_buffer3);free_keys_at_all_11_order_types;symbolic_offsets_and_kinds
 func VerifC11MergeChunks() {
 	var b1 [][]ventry
+	t := vplaced("t")
 	switch rt.Pick("shape", 3) {
 	case 0:
-		b1 = [][]ventry{vramp(0x10, 13, 100), {vfree("t")}}
+		rt.Assume(t.key > "\x28")
+		b1 = [][]ventry{vramp(0x10, 13, 100), {t}}
 	case 1:
-		b1 = [][]ventry{vramp(0x10, 12, 100), vramp(0x40, 12, 200), {vfree("t")}}
+		rt.Assume(t.key > "\x56")
+		b1 = [][]ventry{vramp(0x10, 12, 100), vramp(0x40, 12, 200), {t}}
 	case 2:
-		b1 = [][]ventry{{vfree("t")}, vramp(0x10, 13, 100), vramp(0x40, 12, 200)}
+		rt.Assume(t.key < "\x10")
+		b1 = [][]ventry{{t}, vramp(0x10, 13, 100), vramp(0x40, 12, 200)}
 	}
-	n2 := 1 + rt.Pick("n2", 2)
+	n2 := 1
+	if rt.Thorough() {
+		n2 = 1 + rt.Pick("n2", 2)
+	}
 	b2 := make([]ventry, n2)
 	for j := range b2 {
-		b2[j] = vfree("u" + string(rune('0'+j)))
+		b2[j] = vplaced("u" + string(rune('0'+j)))
 	}
 	bufs := [][][]ventry{b1, {b2}}
 	if rt.Thorough() && rt.Pick("third", 2) == 1 {
-		bufs = append(bufs, [][]ventry{{vfree("w")}})
+		bufs = append(bufs, [][]ventry{{vplaced("w")}})
 	}
 	vmergeCheck(bufs)
 }
